@@ -39,11 +39,35 @@ def mk(tr):
         # public function reconciles by default, so nothing may change (C13)
         j = int(dup[1])
         s = list(s[:j + 1]) + list(s[j:])
+    if _forms(_CUR).get('edges') == 'npscalar' and float(ts) == 0.0:
+        # the documented single-number form of `edges`, as a numpy scalar (e.g. `spikes.max() + 1`)
+        return SpikeTrain(np.array([float(v) for v in s], dtype=float), np.float64(float(te)))
+    if _forms(_CUR).get('edges') == 'nparray':
+        return SpikeTrain(np.array([float(v) for v in s], dtype=float), np.array([float(ts), float(te)]))
     return SpikeTrain(np.array([float(v) for v in s], dtype=float), [float(ts), float(te)])
 
 
 def mkl(sc):
     return [mk(t) for t in sc['trains']]
+
+
+def _np_form(v, form):
+    """the same number as a numpy scalar of another type, when it is exactly representable there"""
+    v = float(v)
+    if form == 'f32' and float(np.float32(v)) == v:
+        return np.float32(v)
+    if form == 'i64' and v == int(v):
+        return np.int64(int(v))
+    if form == 'f64':
+        return np.float64(v)
+    if form == 'f16' and float(np.float16(v)) == v:
+        return np.float16(v)
+    return v
+
+
+def _forms(sc):
+    f = sc.get('forms') if isinstance(sc, dict) else None
+    return f if isinstance(f, dict) else {}
 
 
 def kwargs_of(sc, measure=None):
@@ -52,7 +76,7 @@ def kwargs_of(sc, measure=None):
     if k.get('mrts') == 'auto' or k.get('mrts') == -1:
         kw['MRTS'] = 'auto'
     elif k.get('mrts'):
-        kw['MRTS'] = float(k['mrts'])
+        kw['MRTS'] = _np_form(k['mrts'], _forms(sc).get('mrts'))
     if k.get('ri') and measure in (None, 'spike'):
         kw['RI'] = True
     return kw
@@ -60,12 +84,16 @@ def kwargs_of(sc, measure=None):
 
 def mt_of(sc):
     m = sc.get('kw', {}).get('max_tau')
-    return {} if not m else {'max_tau': float(m)}
+    return {} if not m else {'max_tau': _np_form(m, _forms(sc).get('mt'))}
 
 
 def iv_of(sc):
     iv = sc.get('interval')
-    return {} if iv is None else {'interval': (float(iv[0]), float(iv[1]))}
+    if iv is None:
+        return {}
+    a, b = float(iv[0]), float(iv[1])
+    form = _forms(sc).get('iv')
+    return {'interval': [a, b] if form == 'list' else np.array([a, b]) if form == 'array' else (np.float64(a), np.float64(b)) if form == 'np' else (a, b)}
 
 
 def feq(a, b, tol=TOL):
@@ -445,6 +473,16 @@ def o_C05(sc):
             e = quiet(p.avrg, iv.get('interval'))
             if not feq(d, e):
                 return 'C05 %s(%s%s)=%r but profile average=%r' % (meas, 'pair' if len(args) == 2 else 'list', ', indices=%s' % ik['indices'] if ik else '', d, e)
+            # the same with a LIST of averaging intervals that leave a gap (for the functions that accept one)
+            if meas != 'order' and 'own0' not in sc and 'own01' not in sc:
+                ts_, te_ = float(sc['trains'][0][1]), float(sc['trains'][0][2])
+                T_ = te_ - ts_
+                ivl = [(ts_ + T_ / 8, ts_ + 3 * T_ / 8), (ts_ + 5 * T_ / 8, ts_ + 7 * T_ / 8)]
+                d = quiet(dist, *args, **ik, interval=ivl, **mt, **kw)
+                e = quiet(p.avrg, ivl)
+                if not feq(d, e):
+                    return 'C05 %s(%s%s, interval=%s)=%r but the profile average over these intervals=%r' % (
+                        meas, 'pair' if len(args) == 2 else 'list', ', indices=%s' % ik['indices'] if ik else '', ivl, d, e)
     return None
 
 
@@ -661,6 +699,18 @@ def o_C13(sc):
             return 'C13 %s differs between disordered input and its reconciled form' % name
         if not res_eq(b, c):
             return 'C13 %s with Reconcile=False on valid input differs from the default' % name
+        if 'list' in extra and len(raw) >= 2 and 'matrix' not in name and 'values' not in name:
+            # a list of exactly TWO trains and `indices` naming two (single-pair paths of the multivariate code)
+            R2 = quiet(spk.spikes.reconcile_spike_trains, [raw[0], raw[1]])
+            a2 = quiet(f, [raw[0], raw[1]], **k)
+            b2 = quiet(f, R2, **k)
+            if not res_eq(a2, b2):
+                return 'C13 %s([st1, st2]) differs between disordered input and its reconciled form' % name
+            if len(raw) >= 3 and k.get('MRTS') != 'auto':
+                a3 = quiet(f, raw, indices=[0, 1], **k)
+                b3 = quiet(f, R, indices=[0, 1], **k)
+                if not res_eq(a3, b3):
+                    return 'C13 %s(list, indices=[0, 1]) differs between disordered input and its reconciled form' % name
     return None
 
 
@@ -1112,7 +1162,70 @@ def o_C19(sc):
     got4 = [list(t.spikes) for t in R4]
     if got4 != [[5.0], [], [1.0, 2.0, 3.0], [7.0]]:
         return 'C19 hand-written file with lines "5", "", "3 1 2", "7" loads as %s' % got4
-    return o_C19b(sc)
+    return o_C19b(sc) or o_C19c(sc)
+
+
+def o_C19c(sc):
+    """further corners of the text round trip and of the constructors (third session, round 6)"""
+    d = os.path.join(os.path.dirname(os.path.dirname(os.path.abspath(__file__))), 'build')
+    path = os.path.join(d, 'c19c_%d.txt' % os.getpid())
+    sep, prec = sc['sep'], int(sc['prec'])
+    nv = sum(len(v) for v in sc['values'])
+    # (a) a long train (more entries than any print threshold) next to a short one
+    if nv % 4 == 0:
+        n = 1500 + nv
+        long_ = np.cumsum(np.full(n, 0.0078125)) + 0.5            # dyadic steps: exactly representable
+        L = [SpikeTrain(long_, [0.0, float(long_[-1]) + 1.0]), SpikeTrain(np.array([1.0, 2.5]), [0.0, float(long_[-1]) + 1.0])]
+        try:
+            spk.save_spike_trains_to_txt(L, path, separator=sep, precision=max(prec, 6))
+            R = spk.load_spike_trains_from_txt(path, [0.0, float(long_[-1]) + 1.0], separator=sep)
+        finally:
+            if os.path.exists(path):
+                os.remove(path)
+        if len(R) != 2 or len(R[0].spikes) != n or len(R[1].spikes) != 2:
+            return 'C19 a train of %d spikes and one of 2 were saved, loaded %s' % (n, [len(t.spikes) for t in R])
+        if not np.allclose(R[0].spikes, long_, rtol=10.0 ** (-max(prec, 6)) * 6, atol=0):
+            return 'C19 long train: values differ beyond the printed precision'
+    # (b) edges that no decimal of the printed precision represents, with spikes exactly on them
+    ts_, te_ = 1.0 / 3.0, 200.0 / 3.0
+    vals = [ts_, 7.25, 100.0 / 7.0, te_]
+    for p_ in sorted({prec, 12, 3}):
+        try:
+            spk.save_spike_trains_to_txt([SpikeTrain(np.array(vals), [ts_, te_])], path, separator=sep, precision=p_)
+            R = spk.load_spike_trains_from_txt(path, [ts_, te_], separator=sep)
+        finally:
+            if os.path.exists(path):
+                os.remove(path)
+        if len(R) != 1 or len(R[0].spikes) != len(vals):
+            return 'C19 precision %d, edges [1/3, 200/3], spikes on both edges: saved %d spikes, loaded %s' % (p_, len(vals), [len(t.spikes) for t in R])
+    # (c) a constructed train holds the times it was given: later changes of the source array do not reach it
+    src = np.array(sorted(float(v) for v in (sc['values'][0] or [1.0, 2.0])), dtype=float)
+    keep = list(src)
+    st_ = SpikeTrain(src, [0.0, float(sc['te'])])
+    src += 1.0
+    if list(st_.spikes) != keep:
+        return 'C19 SpikeTrain(array, edges): modifying the source array afterwards changes the train (%s -> %s)' % (keep, list(st_.spikes))
+    # (d) 0/1 time series with a non-dyadic bin and a start time: spikes at start + (k+1)*bin, all inside the edges
+    for ncol in (13, 15, 18, 25):
+        rows = [[(c * 7 + r) % 5 == 0 or c == ncol - 1 for c in range(ncol)] for r in range(2)]
+        start, binw = 0.3, 0.1
+        try:
+            open(path, 'w').write('\n'.join(' '.join('1' if b else '0' for b in row) for row in rows) + '\n')
+            R = spk.import_spike_trains_from_time_series(path, start, binw)
+        finally:
+            if os.path.exists(path):
+                os.remove(path)
+        for row, t in zip(rows, R):
+            if t.t_start != start:
+                return 'C19 time series with start_time=%r imported with t_start=%r' % (start, t.t_start)
+            if len(t.spikes) != sum(row) or any(abs(x - (start + (k + 1) * binw)) > 1e-12 for x, k in zip(t.spikes, [k for k, b in enumerate(row) if b])):
+                return 'C19 time series (bin 0.1, %d samples): spikes %s' % (ncol, list(t.spikes))
+            if len(t.spikes) and (t.spikes[-1] > t.t_end or t.spikes[0] < t.t_start):
+                return 'C19 time series (bin 0.1, %d samples): spike %r outside the edges [%r, %r]' % (ncol, t.spikes[-1], t.t_start, t.t_end)
+        pr = quiet(spk.isi_profile, R[0], R[1])
+        if np.any(np.diff(pr.x) <= 0):
+            return 'C19 trains imported from a time series (bin 0.1, %d samples) give a profile with a non-increasing time axis' % ncol
+    return None
 
 
 def o_C19b(sc):
@@ -1181,7 +1294,7 @@ def o_C20(sc):
     T = float(te - ts)
     bs = T / n
 
-    def psth_ok(LL, a, b, tag):
+    def psth_ok(LL, a, b, tag, bs=bs, exp=exp):
         TT = b - a
         nb = int(TT / bs)
         h = quiet(spk.psth, LL, bs)
@@ -1199,6 +1312,14 @@ def o_C20(sc):
         return None
     if int(T / bs) == n:
         r = psth_ok(L, float(ts), float(te), '')
+        if r:
+            return r
+        # a further train that also has spikes OUTSIDE the recording (= the first train's interval): they are
+        # not inside, so they are not counted - with the scenario's bins and with ONE bin spanning the recording
+        wide = SpikeTrain(np.array([float(ts) - 1.0, float(ts) + T / 2, float(te) + 0.5]), [float(ts) - 2.0, float(te) + 2.0])
+        exp_w = sorted(exp + [float(ts) - 1.0, float(ts) + T / 2, float(te) + 0.5])
+        r = psth_ok(L + [wide], float(ts), float(te), ' (a train with spikes outside the recording added)', exp=exp_w) \
+            or psth_ok(L + [wide], float(ts), float(te), ' (one bin = the whole recording, spikes outside present)', bs=T, exp=exp_w)
         if r:
             return r
         # a second recording with the same start and bin size but a later end (same number of bins):
@@ -1362,6 +1483,12 @@ def o_C09(sc):
             _, i = op
             objs.append(quiet(objs[int(i)].copy))
             combo.append(dict(combo[int(i)]))
+            # "copies are independent of their originals": no shared memory (a write into the arrays of one must
+            # not reach the other; the library's own operations all re-bind fresh arrays, so only this shows it)
+            o_, c_ = objs[int(i)], objs[-1]
+            for nm in ('x', 'y', 'y1', 'y2', 'mp'):
+                if hasattr(o_, nm) and np.shares_memory(getattr(o_, nm), getattr(c_, nm)):
+                    return 'C09 after %s: the copy shares the memory of array `%s` with its original' % (op, nm)
         r = check_all('%s' % (op,))
         if r:
             return r
@@ -1457,6 +1584,11 @@ def o_C10(sc):
         ey += [ev(x[k], +1), ev(x[k + 1], -1)]
     if not aeq(px, [float(v) for v in ex], 0) or not aeq(py, [float(v) for v in ey]):
         return 'C10 plottable arrays do not trace the pieces'
+    # the plottable arrays belong to the caller: rescaling them in place (units!) must not touch the function
+    before_ = (quiet(g.integral), list(g.x))
+    px *= 1000.0; py += 1.0
+    if not feq(quiet(g.integral), before_[0]) or list(g.x) != before_[1]:
+        return 'C10 modifying the arrays returned by get_plottable_data changes the function itself'
     # the same questions after the object has been rescaled / added to / copied (exactness must
     # not depend on what was asked before)
     for step, c in (('mul_scalar(-2)', Fr(-2)), ('mul_scalar(1/2)', Fr(1, 2))):
@@ -1535,6 +1667,10 @@ def o_C11(sc):
     px, py = quiet(acc.get_plottable_data)
     if not aeq(py[1:-1], [float(ev[t][0] / ev[t][1]) for t in times]):
         return 'C11 plottable data are not value/multiplicity'
+    for kk in (0, 1):
+        qx, qy = quiet(acc.get_plottable_data, kk)
+        if any(np.shares_memory(a_, getattr(acc, nm)) for a_ in (qx, qy) for nm in ('x', 'y', 'mp')):
+            return 'C11 get_plottable_data(%d) hands out the profile\'s own arrays (rescaling the plot data in place would change the profile)' % kk
     k = int(sc.get('k', 0))
     if k > 0 and all(e[1].denominator == 1 for e in ev.values()) and len(got) > 2:
         # unit expansion: each entry contributes mp unit items of value y/mp
@@ -1569,6 +1705,10 @@ ORACLES.update({'C09': o_C09, 'C10': o_C10, 'C11': o_C11})
 def _wrap(f):
     def g(sc):
         global _CUR
+        fi = _forms(sc).get('idx')
+        if fi and sc.get('indices') is not None:
+            sc = dict(sc)
+            sc['indices'] = tuple(sc['indices']) if fi == 'tuple' else np.array(sc['indices']) if fi == 'array' else list(sc['indices'])
         _CUR = sc
         try:
             return f(sc)
